@@ -205,7 +205,11 @@ func runC16(c c16Case) (*Violation, string) {
 			want = append(want, id+"/"+p.Tok)
 		}
 		if cc.Alias {
-			want = append(want, id+"/alias/"+p.Tok+"&"+id+"/other/"+p.Tok)
+			if SingleRevHandler(id) {
+				want = append(want, id+"/alias/"+p.Tok+"&!E2")
+			} else {
+				want = append(want, id+"/alias/"+p.Tok+"&"+id+"/other/"+p.Tok)
+			}
 		}
 		if cc.Slow {
 			want = append(want, id+"/slow/"+p.Tok)
@@ -220,7 +224,7 @@ func runC16(c c16Case) (*Violation, string) {
 			key := "reverse-wrong-client"
 			if c.Mode != "ws" {
 				key = "reverse-client-present"
-			} else if strings.Contains(got, "!") {
+			} else if strings.Contains(strings.ReplaceAll(got, "&!E2", ""), "!") {
 				key = "reverse-call-failed"
 			}
 			return violf(key, "forward call %s issued by %s collected reverse identities %q, expected %q", p.Tok, id, got, strings.Join(want, ",")), ""
@@ -261,7 +265,7 @@ func c16NT(c c16Case) (bool, []string) {
 	return c.Clients >= 2 || c.Cut != nil, cl
 }
 
-const c16Rule = "1-5 clients connected at once, each with a reverse handler returning its own identity; 1-8 concurrent forward calls, each making 0-3 reverse calls while pending, optionally one through a field tagged rpc_method that resolves via a client-side handler alias together with one into a second client-side handler registered under another namespace (the two WithClientHandler options come in either order), optionally one into a client-side handler that blocks, optionally all of them through retry-tagged fields of the reverse client struct; link of one client cut (FIN/RST) at a drawn frame and byte position of the reverse exchange; modes {ws, http, server without WithReverseClient}. Non-trivial = >=2 clients connected, or a link cut; distinct by descriptor hash"
+const c16Rule = "1-5 clients connected at once, each with a reverse handler returning its own identity; 1-8 concurrent forward calls, each making 0-3 reverse calls while pending, optionally one through a field tagged rpc_method that resolves via a client-side handler alias together with one into a second client-side handler registered under another namespace (the two WithClientHandler options come in either order; every third client registers just one handler), optionally one into a client-side handler that blocks, optionally all of them through retry-tagged fields of the reverse client struct; link of one client cut (FIN/RST) at a drawn frame and byte position of the reverse exchange; modes {ws, http, server without WithReverseClient}. Non-trivial = >=2 clients connected, or a link cut; distinct by descriptor hash"
 
 func TestC16(t *testing.T) {
 	rec := NewRec("C16", c16Rule)
